@@ -4,6 +4,7 @@ import (
 	"encoding/binary"
 	"encoding/hex"
 	"fmt"
+	"os"
 	"sort"
 	"strings"
 	"testing"
@@ -16,6 +17,14 @@ import (
 	commitmenttypes "github.com/teleport-network/teleport/x/xibc/core/commitment/types"
 	"github.com/teleport-network/teleport/x/xibc/core/host"
 )
+
+// tmTrustLevel: the trust level the replayed clients are configured with (VERIF_TM_TL = "2/3" for the second leg)
+func tmTrustLevel() xibctmtypes.Fraction {
+	if os.Getenv("VERIF_TM_TL") == "2/3" {
+		return xibctmtypes.Fraction{Numerator: 2, Denominator: 3}
+	}
+	return xibctmtypes.Fraction{Numerator: 1, Denominator: 3}
+}
 
 func init() { Drivers["tmclient"] = driveTMClient }
 
@@ -151,7 +160,7 @@ func driveTMClient(t *testing.T, in, out string, seed int64) {
 		initVals := b[0]["vals"].(M)
 		vs := w.valset(initVals)
 		hd0 := SignedHeader("verif-1", 1, w.Base, w.rootBytes("r1"), vs, vs, []tmtypes.PrivValidator{w.PVs["a"], w.PVs["b"], w.PVs["c"]})
-		cs := xibctmtypes.NewClientState("verif-1", xibctmtypes.Fraction{Numerator: 1, Denominator: 3}, 3*tmUnit, 4*tmUnit, 1*tmUnit,
+		cs := xibctmtypes.NewClientState("verif-1", tmTrustLevel(), 3*tmUnit, 4*tmUnit, 1*tmUnit,
 			clienttypes.NewHeight(1, 1), commitmenttypes.GetSDKSpecs(), commitmenttypes.MerklePrefix{KeyPrefix: []byte("xibc")}, uint64(tmUnit))
 		prop, err := clienttypes.NewCreateClientProposal("t", "d", w.Name, cs, hd0.ConsensusState())
 		must(err)
@@ -179,7 +188,7 @@ func driveTMClient(t *testing.T, in, out string, seed int64) {
 				nx := w.valset(st["next"].(M))
 				chainU := fmt.Sprintf("verif-%d", 1+num(st["rev"]))
 				hdU := SignedHeader(chainU, num(st["h"]), c.Header.Time, w.rootBytes(str(st["root"])), nx, nx, nil)
-				csU := xibctmtypes.NewClientState(chainU, xibctmtypes.Fraction{Numerator: 1, Denominator: 3}, 3*tmUnit, 4*tmUnit, 1*tmUnit,
+				csU := xibctmtypes.NewClientState(chainU, tmTrustLevel(), 3*tmUnit, 4*tmUnit, 1*tmUnit,
 					clienttypes.NewHeight(uint64(1+num(st["rev"])), uint64(num(st["h"]))), commitmenttypes.GetSDKSpecs(), commitmenttypes.MerklePrefix{KeyPrefix: []byte("xibc")}, uint64(tmUnit))
 				prop, err := clienttypes.NewUpgradeClientProposal("t", "d", w.Name, csU, hdU.ConsensusState())
 				must(err)
